@@ -280,7 +280,7 @@ def run(ctx):
             ctx.violation('SmallBufferAllocator: %s: %s -> %s' % (what, line_of(c)[:200], o[:400]),
                           {'case': line_of(c), 'output': o, 'cmd': 'echo "<case>" | build/harness/h_smallbuf-*'})
         elif v == 1:
-            ctx.broken.append('correspondence L(C41): real trace/results differ from the model on ' + line_of(c)[:200] + ' -> ' + o[:300])
+            ctx.broken.append('correspondence L(C41): real trace/results differ from the model on ' + line_of(c) + ' -> ' + o[:300])
     if kept and kept[0][0] is WITNESS:
         ctx.cov['regression_former_witness'] = {'verdict': verdicts[0], 'maxocc': kept[0][2]['maxocc']}
     ctx.cov['verdict_histogram'] = {'agree': hist.get(0, 0), 'differ_property_holds': hist.get(1, 0), 'property_fails': hist.get(2, 0)}
